@@ -98,6 +98,20 @@ pub fn instants(p: &Pointwise, blocks: &[(NaiveDate, NaiveDate)], quick: bool, f
         }
     }
     if full {
+        // every run start of the whole supported range (all of them up to 20 000 runs, else 20 000
+        // evenly spread): a hint that is wrong only in some far-away years (a leap-day window that
+        // fails across 2100, found by a seeded change) is queried where it is computed
+        const CAP: usize = 20_000;
+        let n = p.starts.len();
+        if n <= CAP {
+            for s in &p.starts {
+                set.insert(crate::evalx::from_min(*s));
+            }
+        } else {
+            for i in 0..CAP {
+                set.insert(crate::evalx::from_min(p.starts[i * n / CAP]));
+            }
+        }
         for t in [
             NaiveDateTime::MIN,
             ymd(-262143, 1, 1).and_hms_opt(0, 0, 0).unwrap(),
